@@ -91,7 +91,8 @@ def main():
                 if code != 0:
                     r.update(verdict="stillborn", detail="harness build failed: " + next((l for l in out.split("\n") if l.startswith("error")), "")[:200])
                 else:
-                    order = ORDER.get(m["file"], []) + [c for c in ALL if c not in ORDER.get(m["file"], [])]
+                    first = [c for c in os.environ.get("MUTSWEEP_ORDER", "").split(",") if c] or ORDER.get(m["file"], [])
+                    order = first + [c for c in ALL if c not in first]
                     outdir = tempfile.mkdtemp(prefix="mutsweep.")
                     verdict, detail, silent, errors = "survived", "", [], []
                     for cid in order:
